@@ -284,6 +284,10 @@ static ares_bool_t ares_addr_equal(const struct ares_addr *addr1,
         return ARES_TRUE;
       }
       break;
+    case AF_UNSPEC:
+      /* No local address known for either (the socket functions in use have
+       * no getsockname): nothing says the address changed */
+      return ARES_TRUE;
     default:
       break; /* LCOV_EXCL_LINE */
   }
